@@ -218,6 +218,21 @@ CLAIMS = {
         "technique": "contract-based deductive verification (loop invariants, ghost state, inductive lemmas + SMT)",
         "design_ref": "DESIGN.md section 4 C16",
     },
+    "C05": {
+        "text": ("Proof through the real printer and the real decoder: for every aligned period (all six units; sizes 1, 12 months, any "
+                 "other positive size; calendar and ISO years 1000..9999) Period.__str__ runs symbolically and yields a format string "
+                 "(concrete structure, symbolic decimal fields); helpers.period - with _parsers, the regex-backed string types and the "
+                 "assumed pendulum.parse - runs on that string and returns the same start, unit and size (twelve months as one year), "
+                 "and printing the result gives the same text; Instant.__str__ / helpers.instant likewise; two aligned periods of one "
+                 "unit differing in start or size print different texts; structured texts with symbolic fields naming an impossible "
+                 "date (all five ISO shapes), a unit finer than the date's precision, a non-integer size, an unknown unit or a fourth "
+                 "field are refused with a ValueError. The regular expressions are the real patterns, matched by derivatives."),
+        "note": ("pendulum.parse on the five ISO shapes and the derivative matcher are assumed and validated against the real library / "
+                 "re on every run. Arbitrary strings are covered only by a bounded stand-in (about 39 000 strings quick) with an "
+                 "independent classifier, labelled bounded. One genuine defect ('week:YYYY-MM' accepted) was repaired by a fix: commit."),
+        "technique": "contract-based deductive verification (format-term strings, regex derivatives over the real patterns, calendar theory + SMT; one bounded stand-in)",
+        "design_ref": "DESIGN.md section 4 C05, section 2.5",
+    },
     "C06": {
         "text": ("Proof over a symbolic history of any length (strictly decreasing list of dated entries with opaque, possibly "
                  "null values): Parameter._get_at_instant returns the value of the most recent entry on or before the date "
